@@ -1,7 +1,547 @@
 package main
 
-// replayDispatch is filled in by replay drivers per function family; without a driver the violation is
-// reported with the solver's model only.
+import (
+	"encoding/hex"
+	"encoding/json"
+	"fmt"
+	"go/types"
+	"math/big"
+	"os"
+	"os/exec"
+	"path/filepath"
+	"regexp"
+	"sort"
+	"strings"
+	"time"
+
+	"golang.org/x/tools/go/ssa"
+)
+
+// Replay of solver counterexamples on the compiled code.
+//
+// For an entry function whose parameters are "value-like" (integers, booleans, strings, byte slices and
+// arrays, structs and pointers to structs of those, protobuf messages) the model is turned into Go
+// literals, an in-package test is injected with `go test -overlay`, the real function is called under
+// recover(), and results plus final pointees are dumped as JSON. A safety obligation is reproduced when the
+// call panics; a postcondition is reproduced when the violated clause, re-evaluated by the spec evaluator on
+// the concrete pre/post values, is false.
+
+type replayCtx struct {
+	ex      *Exec
+	model   map[string]string
+	imports map[string]string // path -> name
+	pkg     *types.Package
+	used    map[string]int
+	unsup   string
+	st      *State
+}
+
+var trailingNum = regexp.MustCompile(`_\d+$`)
+
+func (rc *replayCtx) lookup(hint string) (string, bool) {
+	h := sanitize(hint)
+	var cands []string
+	for k := range rc.model {
+		if trailingNum.ReplaceAllString(k, "") == h {
+			cands = append(cands, k)
+		}
+	}
+	if len(cands) == 0 {
+		return "", false
+	}
+	sort.Slice(cands, func(i, j int) bool { return numSuffix(cands[i]) < numSuffix(cands[j]) })
+	i := rc.used[h]
+	if i >= len(cands) {
+		i = len(cands) - 1
+	}
+	rc.used[h]++
+	return rc.model[cands[i]], true
+}
+
+func numSuffix(s string) int {
+	m := trailingNum.FindString(s)
+	n := 0
+	fmt.Sscanf(m, "_%d", &n)
+	return n
+}
+
+func (rc *replayCtx) qual(p *types.Package) string {
+	if p == rc.pkg {
+		return ""
+	}
+	if n, ok := rc.imports[p.Path()]; ok {
+		return n
+	}
+	n := fmt.Sprintf("imp%d", len(rc.imports))
+	rc.imports[p.Path()] = n
+	return n
+}
+
+func (rc *replayCtx) typeStr(t types.Type) string {
+	return types.TypeString(t, rc.qual)
+}
+
+func fillBytes(n int, seed string) []byte {
+	b := make([]byte, n)
+	h := 7
+	for _, c := range seed {
+		h = h*31 + int(c)
+	}
+	for i := range b {
+		b[i] = byte('a' + (h+i)%26)
+	}
+	return b
+}
+
+// gen produces a Go expression and the corresponding symbolic-executor value for type t.
+func (rc *replayCtx) gen(t types.Type, hint string, depth int) (string, Value) {
+	if depth > 12 {
+		rc.unsup = "input too deep"
+		return "nil", nil
+	}
+	if _, ok := opaqueSort(t); ok {
+		// external struct types (time.Time, mutexes, protobuf internals): zero value
+		return rc.typeStr(t) + "{}", rc.ex.G.Zero(t)
+	}
+	switch u := t.Underlying().(type) {
+	case *types.Basic:
+		switch {
+		case u.Info()&types.IsInteger != 0:
+			v, ok := rc.lookup(hint)
+			if !ok {
+				v = "0"
+			}
+			bi, _ := new(big.Int).SetString(v, 10)
+			if bi == nil {
+				bi = big.NewInt(0)
+			}
+			return fmt.Sprintf("%s(%s)", rc.typeStr(t), bi.String()), IntB(bi)
+		case u.Info()&types.IsBoolean != 0:
+			v, _ := rc.lookup(hint)
+			return fmt.Sprintf("%s(%v)", rc.typeStr(t), v == "true"), BoolC(v == "true")
+		case u.Info()&types.IsString != 0:
+			n := 0
+			if v, ok := rc.lookup(hint + "_len"); ok {
+				fmt.Sscanf(v, "%d", &n)
+			}
+			if n > 1<<20 {
+				rc.unsup = "model asks for a huge string"
+				n = 0
+			}
+			b := fillBytes(n, hint)
+			return fmt.Sprintf("%s(%q)", rc.typeStr(t), string(b)), rc.ex.G.StrConst(string(b))
+		}
+	case *types.Array:
+		if isByte(u.Elem()) {
+			b := fillBytes(int(u.Len()), hint)
+			if isByteArray(u) {
+				return fmt.Sprintf("%s(mustArr%d(%q))", rc.typeStr(t), u.Len(), string(b)), rc.ex.G.StrConst(string(b))
+			}
+		}
+		if u.Len() <= 64 {
+			var parts []string
+			a := &ArrV{Elem: u.Elem()}
+			for i := 0; i < int(u.Len()); i++ {
+				e, v := rc.gen(u.Elem(), fmt.Sprintf("%s_%d", hint, i), depth+1)
+				parts = append(parts, e)
+				a.E = append(a.E, v)
+			}
+			return fmt.Sprintf("%s{%s}", rc.typeStr(t), strings.Join(parts, ", ")), a
+		}
+	case *types.Struct:
+		sv := &StructV{T: u}
+		var parts []string
+		for i := 0; i < u.NumFields(); i++ {
+			f := u.Field(i)
+			if !f.Exported() && f.Pkg() != rc.pkg {
+				sv.F = append(sv.F, rc.ex.G.Zero(f.Type()))
+				continue
+			}
+			if _, isIface := f.Type().Underlying().(*types.Interface); isIface {
+				sv.F = append(sv.F, rc.ex.G.Zero(f.Type()))
+				continue
+			}
+			e, v := rc.gen(f.Type(), hint+"_"+f.Name(), depth+1)
+			sv.F = append(sv.F, v)
+			parts = append(parts, f.Name()+": "+e)
+		}
+		return fmt.Sprintf("%s{%s}", rc.typeStr(t), strings.Join(parts, ", ")), sv
+	case *types.Pointer:
+		v, ok := rc.lookup(hint + "_isnil")
+		if ok && v == "true" {
+			return fmt.Sprintf("(%s)(nil)", rc.typeStr(t)), &PtrV{Nil: TTrue}
+		}
+		e, val := rc.gen(u.Elem(), hint+"_p", depth+1)
+		obj := rc.ex.G.NewObject(u.Elem(), hint)
+		obj.Sym = true
+		rc.st.Heap[obj] = val
+		rc.st.PreHeap[obj] = val
+		if _, isStruct := u.Elem().Underlying().(*types.Struct); isStruct && strings.HasSuffix(e, "}") {
+			return "&" + e, &PtrV{Nil: TFalse, Obj: obj}
+		}
+		return fmt.Sprintf("ptrTo(%s)", e), &PtrV{Nil: TFalse, Obj: obj}
+	case *types.Slice:
+		if isByte(u.Elem()) {
+			if v, ok := rc.lookup(hint + "_isnil"); ok && v == "true" {
+				return fmt.Sprintf("%s(nil)", rc.typeStr(t)), &SliceV{Nil: TTrue, Off: IntC(0), Len: IntC(0), Cap: IntC(0), Elem: u.Elem()}
+			}
+			n := 0
+			if v, ok := rc.lookup(hint + "_content_len"); ok {
+				fmt.Sscanf(v, "%d", &n)
+			}
+			if n > 1<<20 {
+				rc.unsup = "model asks for a huge byte slice"
+				n = 0
+			}
+			b := fillBytes(n, hint)
+			obj := rc.ex.G.NewObject(t, hint)
+			obj.Sym = true
+			c := rc.ex.G.StrConst(string(b))
+			rc.st.Heap[obj] = c
+			rc.st.PreHeap[obj] = c
+			return fmt.Sprintf("%s(%q)", rc.typeStr(t), string(b)), &SliceV{Nil: TFalse, Obj: obj, Off: IntC(0), Len: IntC(int64(n)), Cap: IntC(int64(n)), Elem: u.Elem()}
+		}
+		n := 0
+		if v, ok := rc.lookup(hint + "_len"); ok {
+			fmt.Sscanf(v, "%d", &n)
+		}
+		if n > 64 {
+			n = 64
+		}
+		var parts []string
+		a := &ArrV{Elem: u.Elem()}
+		for i := 0; i < n; i++ {
+			// elements of message slices are non-nil (A9)
+			e, v := rc.gen(u.Elem(), hint+"_el", depth+1)
+			parts = append(parts, e)
+			a.E = append(a.E, v)
+		}
+		obj := rc.ex.G.NewObject(t, hint)
+		obj.Sym = true
+		rc.st.Heap[obj] = a
+		rc.st.PreHeap[obj] = a
+		return fmt.Sprintf("%s{%s}", rc.typeStr(t), strings.Join(parts, ", ")), &SliceV{Nil: BoolC(n == 0), Obj: obj, Off: IntC(0), Len: IntC(int64(n)), Cap: IntC(int64(n)), Elem: u.Elem()}
+	}
+	rc.unsup = "input type " + t.String() + " has no replay generator"
+	return "nil", nil
+}
+
+const replayHelpers = `
+func ptrTo[T any](v T) *T { return &v }
+func mustArr32(s string) (a [32]byte) { copy(a[:], s); return }
+func mustArr64(s string) (a [64]byte) { copy(a[:], s); return }
+func mustArr12(s string) (a [12]byte) { copy(a[:], s); return }
+func mustArr16(s string) (a [16]byte) { copy(a[:], s); return }
+
+func gocvDump(v reflect.Value, d int) interface{} {
+	if d > 10 { return "…" }
+	switch v.Kind() {
+	case reflect.Bool: return v.Bool()
+	case reflect.Int, reflect.Int8, reflect.Int16, reflect.Int32, reflect.Int64: return strconv.FormatInt(v.Int(), 10)
+	case reflect.Uint, reflect.Uint8, reflect.Uint16, reflect.Uint32, reflect.Uint64, reflect.Uintptr: return strconv.FormatUint(v.Uint(), 10)
+	case reflect.String: return map[string]interface{}{"hex": hex.EncodeToString([]byte(v.String()))}
+	case reflect.Ptr:
+		if v.IsNil() { return map[string]interface{}{"nil": true} }
+		return map[string]interface{}{"nil": false, "elem": gocvDump(v.Elem(), d+1)}
+	case reflect.Interface:
+		if v.IsNil() { return map[string]interface{}{"nil": true} }
+		return map[string]interface{}{"nil": false, "dyn": v.Elem().Type().String()}
+	case reflect.Struct:
+		m := map[string]interface{}{}
+		for i := 0; i < v.NumField(); i++ { m[v.Type().Field(i).Name] = gocvDump(v.Field(i), d+1) }
+		return m
+	case reflect.Slice, reflect.Array:
+		if v.Type().Elem().Kind() == reflect.Uint8 {
+			b := make([]byte, v.Len())
+			for i := range b { b[i] = byte(v.Index(i).Uint()) }
+			return map[string]interface{}{"hex": hex.EncodeToString(b), "nil": v.Kind() == reflect.Slice && v.IsNil()}
+		}
+		var l []interface{}
+		for i := 0; i < v.Len() && i < 64; i++ { l = append(l, gocvDump(v.Index(i), d+1)) }
+		return map[string]interface{}{"list": l}
+	}
+	return "?"
+}
+`
+
+type replayResult struct {
+	Ran        bool
+	Panic      string
+	Out        map[string]interface{}
+	File       string
+	Reproduced bool
+	Note       string
+}
+
+// fromDump converts a dumped JSON value back into an executor value of type t.
+func (rc *replayCtx) fromDump(t types.Type, j interface{}) Value {
+	if _, ok := opaqueSort(t); ok {
+		return rc.ex.G.Zero(t)
+	}
+	switch u := t.Underlying().(type) {
+	case *types.Basic:
+		switch {
+		case u.Info()&types.IsInteger != 0:
+			s, _ := j.(string)
+			bi, ok := new(big.Int).SetString(s, 10)
+			if !ok {
+				bi = big.NewInt(0)
+			}
+			return IntB(bi)
+		case u.Info()&types.IsBoolean != 0:
+			b, _ := j.(bool)
+			return BoolC(b)
+		case u.Info()&types.IsString != 0:
+			m, _ := j.(map[string]interface{})
+			hs, _ := m["hex"].(string)
+			b, _ := hex.DecodeString(hs)
+			return rc.ex.G.StrConst(string(b))
+		}
+	case *types.Struct:
+		m, _ := j.(map[string]interface{})
+		sv := &StructV{T: u}
+		for i := 0; i < u.NumFields(); i++ {
+			sv.F = append(sv.F, rc.fromDump(u.Field(i).Type(), m[u.Field(i).Name()]))
+		}
+		return sv
+	case *types.Pointer:
+		m, _ := j.(map[string]interface{})
+		if n, _ := m["nil"].(bool); n {
+			return &PtrV{Nil: TTrue}
+		}
+		obj := rc.ex.G.NewObject(u.Elem(), "replay")
+		rc.st.Heap[obj] = rc.fromDump(u.Elem(), m["elem"])
+		return &PtrV{Nil: TFalse, Obj: obj}
+	case *types.Interface:
+		m, _ := j.(map[string]interface{})
+		if n, _ := m["nil"].(bool); n {
+			return &IfaceV{ID: IntC(0)}
+		}
+		return &IfaceV{ID: IntC(1)}
+	case *types.Array:
+		if isByteArray(u) {
+			m, _ := j.(map[string]interface{})
+			hs, _ := m["hex"].(string)
+			b, _ := hex.DecodeString(hs)
+			return rc.ex.G.StrConst(string(b))
+		}
+	case *types.Slice:
+		if isByte(u.Elem()) {
+			m, _ := j.(map[string]interface{})
+			hs, _ := m["hex"].(string)
+			b, _ := hex.DecodeString(hs)
+			obj := rc.ex.G.NewObject(t, "replay")
+			rc.st.Heap[obj] = rc.ex.G.StrConst(string(b))
+			n := int64(len(b))
+			isNil, _ := m["nil"].(bool)
+			return &SliceV{Nil: BoolC(isNil), Obj: obj, Off: IntC(0), Len: IntC(n), Cap: IntC(n), Elem: u.Elem()}
+		}
+	}
+	return rc.ex.G.Zero(t)
+}
+
+func (ex *Exec) replayValueFunction(fn *ssa.Function, ob *Obligation, workDir, repo string) *replayResult {
+	res := &replayResult{}
+	if fn == nil || fn.Pkg == nil || ob.Model == nil {
+		res.Note = "no model or no entry function"
+		return res
+	}
+	rc := &replayCtx{ex: ex, model: ob.Model, imports: map[string]string{}, pkg: fn.Pkg.Pkg, used: map[string]int{},
+		st: &State{Heap: map[*Object]Value{}, PreHeap: map[*Object]Value{}, Ghost: map[string]Value{}, Held: map[string]int{}}}
+	var decl []string
+	var args []Value
+	var argNames []string
+	for i, p := range fn.Params {
+		e, v := rc.gen(p.Type(), p.Name(), 0)
+		if rc.unsup != "" {
+			res.Note = rc.unsup
+			return res
+		}
+		decl = append(decl, fmt.Sprintf("\tvar a%d %s = %s", i, rc.typeStr(p.Type()), e))
+		args = append(args, v)
+		argNames = append(argNames, fmt.Sprintf("a%d", i))
+	}
+	sig := fn.Signature
+	var call string
+	if sig.Recv() != nil {
+		call = fmt.Sprintf("a0.%s(%s)", fn.Name(), strings.Join(argNames[1:], ", "))
+	} else {
+		call = fmt.Sprintf("%s(%s)", fn.Name(), strings.Join(argNames, ", "))
+	}
+	nres := sig.Results().Len()
+	var rnames []string
+	for i := 0; i < nres; i++ {
+		rnames = append(rnames, fmt.Sprintf("r%d", i))
+	}
+	var body strings.Builder
+	for _, d := range decl {
+		body.WriteString(d + "\n")
+	}
+	body.WriteString("\tdefer func() {\n\t\tif r := recover(); r != nil { out[\"panic\"] = fmt.Sprint(r) }\n")
+	for i, p := range fn.Params {
+		if _, ok := p.Type().Underlying().(*types.Pointer); ok {
+			fmt.Fprintf(&body, "\t\tout[\"post_a%d\"] = gocvDump(reflect.ValueOf(a%d), 0)\n", i, i)
+		}
+	}
+	body.WriteString("\t\tb, _ := json.Marshal(out)\n\t\tos.WriteFile(os.Getenv(\"GOCV_REPLAY_OUT\"), b, 0o644)\n\t}()\n")
+	if nres > 0 {
+		fmt.Fprintf(&body, "\t%s := %s\n", strings.Join(rnames, ", "), call)
+		for i := range rnames {
+			fmt.Fprintf(&body, "\tout[\"r%d\"] = gocvDump(reflect.ValueOf(&r%d).Elem(), 0)\n", i, i)
+		}
+	} else {
+		fmt.Fprintf(&body, "\t%s\n", call)
+	}
+	var src strings.Builder
+	fmt.Fprintf(&src, "package %s\n\n// generated by gocv: replay of obligation %s\n// model: %v\n\nimport (\n\t\"encoding/hex\"\n\t\"encoding/json\"\n\t\"fmt\"\n\t\"os\"\n\t\"reflect\"\n\t\"strconv\"\n\t\"testing\"\n", fn.Pkg.Pkg.Name(), ob.Name, trimModel(ob.Model))
+	var ips []string
+	for p := range rc.imports {
+		ips = append(ips, p)
+	}
+	sort.Strings(ips)
+	for _, p := range ips {
+		fmt.Fprintf(&src, "\t%s %q\n", rc.imports[p], p)
+	}
+	src.WriteString(")\n\nvar _ = hex.EncodeToString\nvar _ = strconv.Itoa\n" + replayHelpers + "\nfunc TestGocvReplay(t *testing.T) {\n\tout := map[string]interface{}{}\n" + body.String() + "}\n")
+
+	os.MkdirAll(workDir, 0o755)
+	base := sanitize(ob.Name)
+	if len(base) > 120 {
+		base = base[:120]
+	}
+	genFile := filepath.Join(workDir, base+"_test.go")
+	os.WriteFile(genFile, []byte(src.String()), 0o644)
+	res.File = genFile
+	// locate the package directory
+	pkgDir := ""
+	fset := ex.Prog.Fset
+	if fn.Pos().IsValid() {
+		pkgDir = filepath.Dir(fset.Position(fn.Pos()).Filename)
+	}
+	if pkgDir == "" {
+		res.Note = "cannot locate package directory"
+		return res
+	}
+	overlay := map[string]map[string]string{"Replace": {filepath.Join(pkgDir, "zz_gocv_replay_test.go"): genFile}}
+	ob2, _ := json.Marshal(overlay)
+	ovFile := filepath.Join(workDir, base+"_overlay.json")
+	os.WriteFile(ovFile, ob2, 0o644)
+	outFile := filepath.Join(workDir, base+"_out.json")
+	os.Remove(outFile)
+	cmd := exec.Command("go", "test", "-overlay", ovFile, "-vet=off", "-count=1", "-timeout", "60s", "-run", "^TestGocvReplay$", ".")
+	cmd.Dir = pkgDir
+	cmd.Env = append(os.Environ(), "GOFLAGS=-mod=mod", "GOPROXY=off", "GOSUMDB=off", "GOTOOLCHAIN=local", "GOCV_REPLAY_OUT="+outFile)
+	done := make(chan struct{})
+	var outb []byte
+	go func() { outb, _ = cmd.CombinedOutput(); close(done) }()
+	select {
+	case <-done:
+	case <-time.After(120 * time.Second):
+		if cmd.Process != nil {
+			cmd.Process.Kill()
+		}
+		res.Note = "replay timed out"
+		return res
+	}
+	b, err := os.ReadFile(outFile)
+	if err != nil {
+		res.Note = "replay did not run: " + firstLines(string(outb), 6)
+		return res
+	}
+	res.Ran = true
+	json.Unmarshal(b, &res.Out)
+	if p, ok := res.Out["panic"].(string); ok {
+		res.Panic = p
+	}
+	if strings.HasPrefix(ob.Kind, "safety") {
+		res.Reproduced = res.Panic != ""
+		if !res.Reproduced {
+			res.Note = "real code did not panic on the model input"
+		}
+		return res
+	}
+	if ob.Clause == nil {
+		res.Note = "no clause to re-evaluate"
+		return res
+	}
+	if res.Panic != "" {
+		res.Reproduced = true
+		res.Note = "real code panicked: " + res.Panic
+		return res
+	}
+	// rebuild the post-state and evaluate the violated clause concretely
+	for i, p := range fn.Params {
+		if pt, ok := p.Type().Underlying().(*types.Pointer); ok {
+			if pv, ok := args[i].(*PtrV); ok && pv.Obj != nil {
+				if d, ok := res.Out[fmt.Sprintf("post_a%d", i)].(map[string]interface{}); ok {
+					if n, _ := d["nil"].(bool); !n {
+						rc.st.Heap[pv.Obj] = rc.fromDump(pt.Elem(), d["elem"])
+					}
+				}
+			}
+		}
+	}
+	var rv Value
+	if nres == 1 {
+		rv = rc.fromDump(sig.Results().At(0).Type(), res.Out["r0"])
+	} else {
+		t := &TupleV{}
+		for i := 0; i < nres; i++ {
+			t.E = append(t.E, rc.fromDump(sig.Results().At(i).Type(), res.Out[fmt.Sprintf("r%d", i)]))
+		}
+		rv = t
+	}
+	names := ex.paramNames(fn, args, rv, true)
+	var errs []string
+	env := &Env{ex: ex, st: rc.st, names: names, errs: &errs}
+	t := env.evalBool(&ob.Clause.Expr)
+	switch {
+	case t == nil:
+		res.Note = "clause could not be re-evaluated: " + strings.Join(errs, "; ")
+	case t.IsFalse():
+		res.Reproduced = true
+	case t.IsTrue():
+		res.Note = "clause holds on the real code for the model input (solver model not reproduced)"
+	default:
+		res.Note = "clause did not fold to a constant: " + t.String()
+	}
+	return res
+}
+
+// replayDispatch is called for every failed obligation; returns the suffix of the VIOLATION line.
 func replayDispatch(id string, g *nameGroup, path string) string {
+	if g.Fail == nil || replayExec == nil {
+		return " no-failing-input-found"
+	}
+	fn := replayFns[g.Fail.Entry]
+	r := replayExec.replayValueFunction(fn, g.Fail, filepath.Join(verifRoot, "work", "replay", id), "")
+	// append the outcome to the replay record
+	var rec map[string]interface{}
+	if b, err := os.ReadFile(path); err == nil {
+		json.Unmarshal(b, &rec)
+	}
+	if rec == nil {
+		rec = map[string]interface{}{}
+	}
+	rec["replay_ran"] = r.Ran
+	rec["replay_reproduced"] = r.Reproduced
+	rec["replay_note"] = r.Note
+	rec["replay_panic"] = r.Panic
+	rec["replay_output"] = r.Out
+	if r.File != "" {
+		if b, err := os.ReadFile(r.File); err == nil {
+			rec["replay_test_source"] = string(b)
+		}
+	}
+	b, _ := json.MarshalIndent(rec, "", " ")
+	os.WriteFile(path, b, 0o644)
+	if r.Reproduced {
+		return ""
+	}
 	return " no-failing-input-found"
 }
+
+var (
+	replayExec *Exec
+	replayFns  map[string]*ssa.Function
+)
